@@ -39,6 +39,10 @@ type Segment struct {
 	Msg      string `json:"msg"` // initial message
 	Ops      []Op   `json:"ops"`
 	CancelAt int    `json:"cancel_at"` // the host signal turns true during the chk after this op index; -1 never
+	// Sparse: 0 = the probe runs after every operation; n > 0 = only after every
+	// (n+1)-th operation, so that operations run back to back without the probe's
+	// own reads in between (a read can hide or heal a stale lookup state).
+	Sparse int `json:"sparse,omitempty"`
 }
 
 type Workload struct {
@@ -109,6 +113,7 @@ func (Prop) Generate(seed uint64, tier string) *core.Plan {
 	maxOps := []int{3, 8, 25}[r.Intn(3)]
 	renameBias := []float64{0, 0.08, 0.2}[r.Intn(3)]
 	pCancel := []float64{0, 0.2}[r.Intn(2)]
+	sparse := []int{0, 2, 30}[r.Intn(3)]
 	f1kinds := []string{"int64", "int", "uint8", "float32", "float64", "string", "bool", "nil", "nan"}
 	w := Workload{}
 	for t := 0; t < nt; t++ {
@@ -122,6 +127,9 @@ func (Prop) Generate(seed uint64, tier string) *core.Plan {
 			}
 			if r.Chance(pCancel) {
 				sg.CancelAt = r.Intn(n)
+			}
+			if sparse > 0 && r.Intn(2) == 0 {
+				sg.Sparse = 1 + r.Intn(sparse)
 			}
 			segs = append(segs, sg)
 		}
@@ -176,9 +184,22 @@ func renderSeg(sg *Segment) string {
 		default:
 			panic("c10: unknown op " + op.Op)
 		}
-		fmt.Fprintf(&b, "chk(%d, %s)\n", i, chkArgs)
+		if probed(sg, i) {
+			fmt.Fprintf(&b, "chk(%d, %s)\n", i, chkArgs)
+		}
 	}
 	return b.String()
+}
+
+// probed tells whether the probe runs after operation i of the segment.
+func probed(sg *Segment, i int) bool {
+	if sg.Sparse <= 0 {
+		return true
+	}
+	if sg.CancelAt == i {
+		return true // the probe is also the carrier of the cancellation fault
+	}
+	return i%(sg.Sparse+1) == sg.Sparse
 }
 
 func initialFields(sg *Segment) map[string]any {
@@ -376,8 +397,8 @@ func (t *taskRun) chk(ctx *runtime.Task, e *ast.CallExpr) *errchain.PlError {
 		}
 		reads = append(reads, k+"="+valStr(want))
 	}
-	// narrow effect oracles
-	if idx >= 0 && idx < len(t.cur.Ops) {
+	// narrow effect oracles (need the state immediately before the operation: dense probing only)
+	if idx >= 0 && idx < len(t.cur.Ops) && t.cur.Sparse <= 0 {
 		op := t.cur.Ops[idx]
 		switch op.Op {
 		case "drop_key":
@@ -661,6 +682,11 @@ func (Prop) Shrink(p *core.Plan) []*core.Plan {
 			if sg.CancelAt >= 0 {
 				nw := clone()
 				nw.Tasks[ti][si].CancelAt = -1
+				mk(nw)
+			}
+			if sg.Sparse > 0 {
+				nw := clone()
+				nw.Tasks[ti][si].Sparse = 0
 				mk(nw)
 			}
 			if sg.F1 != "int64" {
